@@ -2,6 +2,10 @@ package vuego
 
 import (
 	"context"
+	"errors"
+	"io"
+	"io/fs"
+	"sort"
 	"strings"
 	"time"
 )
@@ -17,3 +21,176 @@ func (c zzCtx) Err() error                  { return c.err }
 func (c zzCtx) Value(key any) any           { return nil }
 
 func contextBackground() context.Context { return zzCtx{} }
+
+// zzFS is a small in-memory filesystem (path -> content) implementing
+// fs.FS, fs.ReadFileFS, fs.StatFS and fs.ReadDirFS with ordinary Go code.
+type zzFS struct {
+	files map[string]string
+	mtime map[string]int64 // 0 = zero time
+}
+
+func newZZFS(files map[string]string) *zzFS { return &zzFS{files: files, mtime: map[string]int64{}} }
+
+type zzInfo struct {
+	name  string
+	size  int64
+	dir   bool
+	mtime int64
+}
+
+func (i zzInfo) Name() string { return i.name }
+func (i zzInfo) Size() int64  { return i.size }
+func (i zzInfo) Mode() fs.FileMode {
+	if i.dir {
+		return fs.ModeDir | 0o555
+	}
+	return 0o444
+}
+func (i zzInfo) ModTime() time.Time {
+	if i.mtime == 0 {
+		return time.Time{}
+	}
+	return time.Unix(i.mtime, 0)
+}
+func (i zzInfo) IsDir() bool                { return i.dir }
+func (i zzInfo) Sys() any                   { return nil }
+func (i zzInfo) Type() fs.FileMode          { return i.Mode().Type() }
+func (i zzInfo) Info() (fs.FileInfo, error) { return i, nil }
+
+func zzBase(p string) string {
+	if k := strings.LastIndex(p, "/"); k >= 0 {
+		return p[k+1:]
+	}
+	return p
+}
+
+func (f *zzFS) isDir(name string) bool {
+	if name == "." {
+		return true
+	}
+	for p := range f.files {
+		if strings.HasPrefix(p, name+"/") {
+			return true
+		}
+	}
+	return false
+}
+
+func (f *zzFS) Stat(name string) (fs.FileInfo, error) {
+	if c, ok := f.files[name]; ok {
+		return zzInfo{name: zzBase(name), size: int64(len(c)), mtime: f.mtime[name]}, nil
+	}
+	if f.isDir(name) {
+		return zzInfo{name: zzBase(name), dir: true}, nil
+	}
+	return nil, &fs.PathError{Op: "stat", Path: name, Err: fs.ErrNotExist}
+}
+
+func (f *zzFS) ReadFile(name string) ([]byte, error) {
+	if c, ok := f.files[name]; ok {
+		return []byte(c), nil
+	}
+	return nil, &fs.PathError{Op: "open", Path: name, Err: fs.ErrNotExist}
+}
+
+func (f *zzFS) ReadDir(name string) ([]fs.DirEntry, error) {
+	if !f.isDir(name) {
+		return nil, &fs.PathError{Op: "readdir", Path: name, Err: fs.ErrNotExist}
+	}
+	seen := map[string]bool{}
+	var names []string
+	for p := range f.files {
+		rest := p
+		if name != "." {
+			if !strings.HasPrefix(p, name+"/") {
+				continue
+			}
+			rest = p[len(name)+1:]
+		}
+		if k := strings.Index(rest, "/"); k >= 0 {
+			rest = rest[:k]
+		}
+		if !seen[rest] {
+			seen[rest] = true
+			names = append(names, rest)
+		}
+	}
+	sort.Strings(names)
+	var out []fs.DirEntry
+	for _, n := range names {
+		full := n
+		if name != "." {
+			full = name + "/" + n
+		}
+		if c, ok := f.files[full]; ok {
+			out = append(out, zzInfo{name: n, size: int64(len(c)), mtime: f.mtime[full]})
+		} else {
+			out = append(out, zzInfo{name: n, dir: true})
+		}
+	}
+	return out, nil
+}
+
+type zzFile struct {
+	info zzInfo
+	data string
+	off  int
+}
+
+func (z *zzFile) Stat() (fs.FileInfo, error) { return z.info, nil }
+func (z *zzFile) Close() error               { return nil }
+func (z *zzFile) Read(p []byte) (int, error) {
+	if z.off >= len(z.data) {
+		return 0, io.EOF
+	}
+	n := copy(p, z.data[z.off:])
+	z.off += n
+	return n, nil
+}
+
+func (f *zzFS) Open(name string) (fs.File, error) {
+	if c, ok := f.files[name]; ok {
+		return &zzFile{info: zzInfo{name: zzBase(name), size: int64(len(c)), mtime: f.mtime[name]}, data: c}, nil
+	}
+	if f.isDir(name) {
+		return &zzFile{info: zzInfo{name: zzBase(name), dir: true}}, nil
+	}
+	return nil, &fs.PathError{Op: "open", Path: name, Err: fs.ErrNotExist}
+}
+
+// zzRender renders a string template with data through the public API.
+func zzRender(tpl Template, body string, data map[string]any) (string, error) {
+	var sb strings.Builder
+	err := tpl.New().Fill(data).RenderString(contextBackground(), &sb, body)
+	return sb.String(), err
+}
+
+// zzRenderFile renders a file of fsys with data through the public API.
+func zzRenderFile(fsys fs.FS, name string, data map[string]any) (string, error) {
+	var sb strings.Builder
+	err := NewFS(fsys).Fill(data).RenderFile(contextBackground(), &sb, name)
+	return sb.String(), err
+}
+
+// zzWriter accepts at most limit bytes, then fails.
+type zzWriter struct {
+	limit int
+	got   []byte
+	fails int
+}
+
+func (w *zzWriter) Write(p []byte) (int, error) {
+	room := w.limit - len(w.got)
+	if len(p) <= room {
+		w.got = append(w.got, p...)
+		return len(p), nil
+	}
+	if room > 0 {
+		w.got = append(w.got, p[:room]...)
+	} else {
+		room = 0
+	}
+	w.fails++
+	return room, errors.New("zz: writer full")
+}
+
